@@ -1483,13 +1483,47 @@ func genFs20(r *Repo) (string, error) {
 			}
 			return "", r.Refuse(st.Pos(), "OSMode: %s", c.text(s))
 		case *ast.SwitchStmt:
-			if s.Tag != nil || s.Init != nil {
-				return "", r.Refuse(st.Pos(), "OSMode: expected a tagless switch")
+			if s.Init != nil {
+				return "", r.Refuse(st.Pos(), "OSMode: switch with init")
+			}
+			// tagged form `switch m.FileType() { case ModeX: ... }` with FileType() == m & FileModeMask: the same decision
+			// table as the tagless form `case m.IsX()` with IsX() == (m&FileModeMask == ModeX)
+			tagged := false
+			if s.Tag != nil {
+				ft, err := fsFunc(r, "p9", "FileMode.FileType")
+				if fsText(s.Tag) != rv+".FileType()" || err != nil || ft.Body == nil || len(ft.Body.List) != 1 {
+					return "", r.Refuse(st.Pos(), "OSMode: switch tag must be %s.FileType()", rv)
+				}
+				fret, ok := ft.Body.List[0].(*ast.ReturnStmt)
+				frv := ""
+				if ft.Recv != nil && len(ft.Recv.List) == 1 && len(ft.Recv.List[0].Names) == 1 {
+					frv = ft.Recv.List[0].Names[0].Name
+				}
+				if !ok || len(fret.Results) != 1 || fsText(fsUnparen(fret.Results[0])) != frv+" & FileModeMask" {
+					return "", r.Refuse(ft.Pos(), "FileType is not `m & FileModeMask`")
+				}
+				tagged = true
 			}
 			for _, cc := range s.Body.List {
 				cl := cc.(*ast.CaseClause)
 				if len(cl.List) != 1 {
 					return "", r.Refuse(cl.Pos(), "OSMode: one predicate per case, no default")
+				}
+				if tagged {
+					tv, err := fsEvalNum(r, penv, cl.List[0])
+					if err != nil {
+						return "", r.Refuse(cl.Pos(), "OSMode: case must be a Mode constant")
+					}
+					e := fsOrAssigned(cl.Body, ores)
+					if e == nil {
+						return "", r.Refuse(cl.Pos(), "OSMode: case body must be `osMode |= os.ModeX`")
+					}
+					bits, err := fsOsBits(r, e)
+					if err != nil {
+						return "", err
+					}
+					ocases = append(ocases, [2]string{tv, fmt.Sprint(bits)})
+					continue
 				}
 				call, ok := cl.List[0].(*ast.CallExpr)
 				if !ok {
